@@ -111,6 +111,16 @@ def targets(tier='quick'):
     for ne in (1, 2):
         T.append(Target('dyn/prefix[envs=%d]' % ne, 'system_dynamics.compute_dynamics',
                         lambda ip, repo, ne=ne: dyn.cd_scenario(ip, repo, num_envs=ne), post_prefix, RD, PROP, replay=rp))
+    # the two per-step contracts the same-cells lemma composes (TEMPO: which influence enters at step n; PT-TEMPO: which
+    # influence builds column c).  Discharged here as well, so that this check does not rest on another check having run.
+    for kn in (False, True):
+        for tn_ in ((False, True) if not kn else (True,)):
+            T.append(Target('tempo/step[dkmax=%s,add_correlation_time=%s]' % ('None' if kn else 'K', 'None' if tn_ else 'tau'),
+                            'backends.tempo_backend.BaseTempoBackend.compute_system_step', c01.scen_step(kn, tn_), c01.post_step,
+                            c01.step_registry(), PROP, replay=rp))
+    for tn_ in (False, True):
+        T.append(Target('pt/step[add_correlation_time=%s]' % ('None' if tn_ else 'tau'), 'backends.pt_tempo_backend.PtTempoBackend.compute_step',
+                        c01.scen_pt_step(tn_), c01.post_pt_step, c01.pt_registry(), PROP, replay=rp))
     T.append(c01.lemma_same_cells())
     return T
 
